@@ -280,3 +280,62 @@ Section Hierarchy.
     - apply Rmult_eq_reg_l with (q_cp0 P1 * q_mass P1); [|exact Hnz]. rewrite Ad. field. repeat split; assumption.
   Qed.
 End Hierarchy.
+
+(* ---- ice / temperature relation and the solidification stencil (C07) ---------------------------------------- *)
+Section Solid.
+  Variable P : @p1d R.
+  Notation mw := (q_mw P). Notation ms := (q_ms P). Notation m := (q_mass P). Notation Tm := (q_Tm P).
+  Notation kf := (q_kf P). Notation Ms := (q_Ms P). Notation Teql := (q_Teql P).
+
+  (* wherever ice is reported the ice fraction is the liquidus value; it is positive below T_eq_l, below the
+     water fraction, and zero at or above T_eq_l *)
+  Theorem ice_relation T : 0 < m -> 0 < ms * (kf / Ms) -> 0 < mw ->
+    Teql = Tm - ms * (kf / Ms) / mw ->
+    (T < Teql -> ice_of Rops P T = (mw - ms * (kf / Ms) / (Tm - T)) / m /\ 0 < ice_of Rops P T < mw / m)
+    /\ (Teql <= T -> ice_of Rops P T = 0).
+  Proof.
+    intros Hm Hk Hmw HT. unfold ice_of. cbn [nltb nsub nmul ndiv nofZ Rops]. split.
+    - intros Hlt. assert (Rltb T Teql = true) as -> by (apply Rltb_true; exact Hlt). split; [reflexivity|].
+      assert (Hd : ms * (kf / Ms) / mw < Tm - T) by lra.
+      assert (Hpos : 0 < Tm - T) by (assert (0 < ms * (kf / Ms) / mw) by (apply Rdiv_lt_0_compat; assumption); lra).
+      assert (Hq : ms * (kf / Ms) / (Tm - T) < mw).
+      { apply Rmult_lt_reg_r with (Tm - T); [exact Hpos|]. unfold Rdiv at 1. rewrite Rmult_assoc, Rinv_l by lra.
+        apply Rmult_lt_reg_r with (/ mw); [apply Rinv_0_lt_compat; exact Hmw|].
+        replace (mw * (Tm - T) * / mw) with (Tm - T) by (field; lra). unfold Rdiv in Hd. lra. }
+      assert (0 < ms * (kf / Ms) / (Tm - T)) by (apply Rdiv_lt_0_compat; assumption).
+      split.
+      + apply Rdiv_lt_0_compat; lra.
+      + unfold Rdiv. apply Rmult_lt_compat_r; [apply Rinv_0_lt_compat; exact Hm|]. lra.
+    - intros Hge. assert (Rltb T Teql = false) as -> by (apply Rltb_false; exact Hge). reflexivity.
+  Qed.
+
+  (* interior point of the solidification step: a convex combination of the point and its two neighbours when
+     the diagonal weight is non-negative and the conductivity does not vary too fast (hypotheses evaluated per run) *)
+  Theorem solid_point_convex a b d la lb ld w lo hi :
+    let F := q_dt P / (cp_of Rops P w * q_rho P) / (q_dz P * q_dz P) * (1 / BETA_of Rops P b w) in
+    0 <= F -> 2 * F * lb <= 1 -> Rabs (ld - la) <= 4 * lb ->
+    q_dz P <> 0 -> cp_of Rops P w <> 0 -> q_rho P <> 0 -> BETA_of Rops P b w <> 0 ->
+    lo <= a <= hi -> lo <= b <= hi -> lo <= d <= hi ->
+    lo <= solid_point Rops P a b d la lb ld w <= hi.
+  Proof.
+    intros F HF Hdiag Hvar Hdz Hcp Hrho HB Ha Hb Hd.
+    assert (E : solid_point Rops P a b d la lb ld w
+                = (1 - 2 * F * lb) * b + (F * (lb + (ld - la) / 4)) * d + (F * (lb - (ld - la) / 4)) * a).
+    { unfold solid_point, F. cbn [nadd nsub nmul ndiv nofZ Rops]. field. repeat split; assumption. }
+    rewrite E. assert (Hv2 : - (4 * lb) <= ld - la <= 4 * lb) by (unfold Rabs in Hvar; destruct (Rcase_abs (ld - la)); lra). clear Hvar.
+    assert (0 <= F * (lb + (ld - la) / 4)) by (apply Rmult_le_pos; lra).
+    assert (0 <= F * (lb - (ld - la) / 4)) by (apply Rmult_le_pos; lra).
+    assert (0 <= 1 - 2 * F * lb) by lra.
+    set (c0 := 1 - 2 * F * lb) in *. set (c1 := F * (lb + (ld - la) / 4)) in *. set (c2 := F * (lb - (ld - la) / 4)) in *.
+    assert (c0 + c1 + c2 = 1) by (unfold c0, c1, c2; ring).
+    split; nra.
+  Qed.
+
+  (* ghost points carry exactly the boundary fluxes (C02) *)
+  Lemma ghost_bottom_flux T0 Tsh lam : lam <> 0 -> q_dz P <> 0 ->
+    lam * ((T0 + q_K P * (Tsh - T0) * q_dz P / lam) - T0) / q_dz P = q_K P * (Tsh - T0).
+  Proof. intros. field. split; assumption. Qed.
+  Lemma ghost_top_flux Tn qe lam : lam <> 0 -> q_dz P <> 0 ->
+    lam * ((Tn + qe * q_dz P / lam) - Tn) / q_dz P = qe.
+  Proof. intros. field. split; assumption. Qed.
+End Solid.
